@@ -293,7 +293,7 @@ func init() {
 			Scenarios[fmt.Sprintf("c18.claims.p%d.b%d", p, b)] = func() (choice.Scenario, func() any) {
 				g := newCoarseGen(p, b)
 				return func(c *choice.Ctx) {
-					how := c.Choose("construction", 3)
+					how := c.Choose("construction", 4)
 					i1 := c.Choose("op1", len(claimsReadOps))
 					if !c18Mine(how*len(claimsReadOps) + i1) {
 						return
@@ -316,6 +316,14 @@ func init() {
 							return
 						}
 						build = func() psatoken.IClaims { x, _ := psatoken.DecodeClaimsFromCBOR(wire); return x }
+					case 3: // NewClaims + setters: the object holds whatever the stock factory handed out
+						if !a.Valid() {
+							return // the setters only build claims-sets that are valid
+						}
+						if _, err := buildBySetters(a); err != nil {
+							return
+						}
+						build = func() psatoken.IClaims { x, _ := buildBySetters(a); return x }
 					case 2:
 						if a.ProfileInvalid {
 							return
@@ -330,7 +338,7 @@ func init() {
 						return
 					}
 					c18stats.StateStr(fmt.Sprint(how, i1, i2) + a.String())
-					c18ClaimsPair(c, c18stats, build, fmt.Sprintf("P%d %s %s", p, []string{"literal", "cbor-decoded", "json-decoded"}[how], a.Check().String()), i1, i2)
+					c18ClaimsPair(c, c18stats, build, fmt.Sprintf("P%d %s %s", p, []string{"literal", "cbor-decoded", "json-decoded", "setter-built"}[how], a.Check().String()), i1, i2)
 					c18stats.Outcome(map[bool]string{true: "valid-object", false: "invalid-object"}[a.Valid()])
 				}, nil
 			}
@@ -603,7 +611,11 @@ func init() {
 				if !thorough(r) && bl >= 2 {
 					continue
 				}
-				exploreChoiceOpts(r, fmt.Sprintf("c18.claims.p%d.b%d", p, bl), b, dl, 1)
+				bb := b
+				if !thorough(r) && bl == 1 {
+					bb = 2 // second baseline: every operation pair on it, every single operation on its construction variants
+				}
+				exploreChoiceOpts(r, fmt.Sprintf("c18.claims.p%d.b%d", p, bl), bb, dl, 1)
 			}
 		}
 		c18stats.Publish(r)
